@@ -292,6 +292,18 @@ func (s *Schema) control() (err error) {
 		return
 	}
 
+	// a field index must belong to a known field and hold values
+	// of the type the values of this field are cast to
+	for fn, fi := range s.ObjectIndex.Fields {
+		fd, ok := s.Fields[fn]
+		if !ok {
+			return fmt.Errorf("%w: index on unknown field %s", ErrBadSchema, fn)
+		}
+		if cast, ok := fd.castName(); !ok || cast != fi.Cast {
+			return fmt.Errorf("%w: index of field %s (%s) is cast to %s", ErrBadSchema, fn, fd.Type, fi.Cast)
+		}
+	}
+
 	// verifying index integrity (longer process so done at last)
 	// we control any index corruption
 	if uuids, err = uuidsFromDir(dir); err != nil && !os.IsNotExist(err) {
